@@ -184,7 +184,11 @@ def run_path(task):
             out["status"] = "dead"
         except SymRaise as e:
             out["status"] = "raised"
-            run.check(f"{job['id']}.no_unexpected_exception[{e.exc_name}]", False, kind="post", loc=_loc_of(e))
+            if getattr(e, "code_assertion", None):
+                # an `assert` of the code itself that the symbolic model could not prove on this path
+                run.check(f"{job['id']}.code_assertion[{e.code_assertion.rsplit(':', 1)[0]}]", False, kind="assert", loc=e.code_assertion)
+            else:
+                run.check(f"{job['id']}.no_unexpected_exception[{e.exc_name}]", False, kind="post", loc=_loc_of(e))
         except Unsupported as e:
             out["status"] = "unsupported"
             out["unsupported"].append({"msg": e.msg, "where": e.where or "", "path": len(decisions)})
